@@ -190,6 +190,7 @@ func cmdFn(repo, name, prop string, verbose bool) int {
 			}
 		}
 	}
+	fmt.Println("SWEEP-DONE") // scripts treat a sweep without this line (killed, crashed) as incomplete, never as quiet
 	return rc
 }
 
